@@ -620,6 +620,19 @@ func (w *World) restart() {
 // says which frame's handler performs the i-th operation when both have one pending (false = the
 // first frame). Returns the operations in the order performed, tagged with the frame number.
 func (w *World) runSched(p1, p2 server.GatewayPacket, sched []bool) ([]string, string) {
+	is := make([]int, len(sched))
+	for i, b := range sched {
+		if b {
+			is[i] = 1
+		}
+	}
+	return w.runSchedN([]server.GatewayPacket{p1, p2}, is)
+}
+
+// runSchedN feeds the frames one after the other (each handler parks at its first gate), then lets the handler
+// named by the schedule perform its next operation; when that handler has nothing parked, the first one that
+// has (Model/Steps.v interleaveN / choose).
+func (w *World) runSchedN(pkts []server.GatewayPacket, sched []int) ([]string, string) {
 	w.mu.Lock()
 	w.stepped = true
 	w.parked = map[uint64]*parkedG{}
@@ -645,38 +658,48 @@ func (w *World) runSched(p1, p2 server.GatewayPacket, sched []bool) ([]string, s
 		w.mu.Unlock()
 		return tr, st
 	}
-	w.inject(p1)
-	if !settle() {
-		return finish(nil, "HUNG")
-	}
-	w.mu.Lock()
-	w.curThread = 1
-	w.mu.Unlock()
-	w.inject(p2)
-	if !settle() {
-		return finish(nil, "HUNG")
+	for t, p := range pkts {
+		w.mu.Lock()
+		w.curThread = t
+		w.mu.Unlock()
+		w.inject(p)
+		if !settle() {
+			return finish(nil, "HUNG")
+		}
 	}
 	var trace []string
 	for i := 0; ; i++ {
 		w.mu.Lock()
-		var cand [2]*parkedG
+		cand := make([]*parkedG, len(pkts))
+		any := false
 		for _, x := range w.parked {
 			t := w.threadOf[x.gid]
+			if t < 0 || t >= len(cand) {
+				continue
+			}
 			if cand[t] == nil || x.gid < cand[t].gid {
 				cand[t] = x
 			}
+			any = true
 		}
-		if cand[0] == nil && cand[1] == nil {
+		if !any {
 			w.mu.Unlock()
 			break
 		}
-		pick := 0
-		if cand[0] != nil && cand[1] != nil {
-			if i < len(sched) && sched[i] {
-				pick = 1
+		want := 0
+		if i < len(sched) {
+			want = sched[i]
+		}
+		pick := -1
+		if want >= 0 && want < len(cand) && cand[want] != nil {
+			pick = want
+		} else {
+			for t := range cand {
+				if cand[t] != nil {
+					pick = t
+					break
+				}
 			}
-		} else if cand[1] != nil {
-			pick = 1
 		}
 		pg := cand[pick]
 		delete(w.parked, pg.gid)
